@@ -38,7 +38,7 @@ class C05(Check):
     reference_models = ["ref/refext4.py tree_digest() and check()"]
 
     def budget(self, tier):
-        return {"runs": 1500, "wall_s": 90} if tier == "quick" else {"runs": 30000, "wall_s": 1500}
+        return {"runs": 1500, "wall_s": 90} if tier == "quick" else {"runs": 15000, "wall_s": 1500}
 
     def generate(self, rng, tier):
         damage = rng.chance(0.55)
